@@ -7,9 +7,9 @@ res = {}   # (src, n) -> {prop: outcome}
 for log in sys.argv[1:]:
     cur = None
     for line in open(log):
-        m = re.match(r"== seed-(C\d+) mutant(\d+)", line)
-        if m:
-            cur = (m.group(1), m.group(2)); continue
+        m = re.match(r"== seed(3?)-(C\d+) mutant(\d+)", line)
+        if m:   # wave 3 ("seed3-") mutants 1,2 are filed as m3,m4
+            cur = (m.group(2), str(int(m.group(3)) + (2 if m.group(1) else 0))); continue
         m = re.match(r"(C\d+): (CAUGHT|MISSED|ERROR)(.*)", line)
         if m and cur:
             tail = m.group(3)
